@@ -229,3 +229,32 @@ def gen_project(rng, pid, nsrc=None, modes=(0,), allow_errors=True, edges="dag",
     p.sched = [r.below(6) for _ in range(4 * nsrc + 8)]
     p.stats = stats; p.srcs = srcs; p.deps = deps
     return p
+
+def gen_large_project(rng, pid, modes=(0,)):
+    """outputs above the 8 KiB buffers of BufReader/BufWriter (9-30 KiB): chunk boundaries straddle multiples of 8192 at
+    varying offsets. Built from many SHORT lines and small includes: the model's string functions use the quadratic
+    List.rev on single strings, so one huge line or one huge include would cost minutes in the extracted evaluator."""
+    r = rng
+    p = Project(pid)
+    le = "\r\n" if r.chance(1, 4) else "\n"
+    nlines = 150 + r.below(350)
+    width = 5 + r.below(60)
+    lines = []
+    for i in range(nlines):
+        w = max(1, width + r.below(9) - 4)
+        lines.append(("%d " % i + "x" * w)[:w])
+    inc = "".join("inc line %d %s\n" % (i, "y" * r.below(60)) for i in range(20 + r.below(20)))
+    p.files.append(("/big.inc", inc.encode()))
+    mid = []
+    for k in range(2 + r.below(4)):
+        mid += ["  -TXTPP#include big.inc", "between %d" % k]
+    temp = ["=TXTPP#temp a_t0.tmp"] + ["=" + "t" * (10 + r.below(60)) for _ in range(100 + r.below(150))] + [""]
+    body = lines[: nlines // 2] + mid + temp + lines[nlines // 2:]
+    p.files.append(("/a.txt.txtpp", (le.join(body) + le).encode()))
+    p.files.append(("/sub/b.txtpp", (le.join(lines) + (le if r.chance(1, 2) else "")).encode()))
+    p.srcs = ["/a.txt.txtpp", "/sub/b.txtpp"]; p.deps = {s: [] for s in p.srcs}
+    p.mode = r.choice(list(modes)); p.trailing = not r.chance(1, 4)
+    p.inputs = ["."]; p.recursive = True
+    p.sched = [r.below(3) for _ in range(10)]
+    p.stats = collections.Counter({"large:project": 1})
+    return p
